@@ -23,7 +23,8 @@ RULE = ("cells = kernel basis {RBF, Matern-ARD, Scale(RBF), RBF+Matern on differ
 ASSUMPTIONS = ["the eager dense matrix is the reference for the lazy one (C05 decides the values themselves)",
                "index tensors in one matrix dimension at a time together with slices/ints in the other; paired row/col tensors are also covered"]
 
-BASIS = ["rbf", "matern_ard", "scale_rbf", "sum_ad", "prod", "periodic", "multitask", "rbfgrad", "rq", "rbfgrad_ard", "linear_ard", "kiss"]
+BASIS = ["rbf", "matern_ard", "scale_rbf", "sum_ad", "prod", "periodic", "multitask", "rbfgrad", "rq", "rbfgrad_ard", "linear_ard", "kiss", "indexk", "hamming"]
+DISCRETE = ("indexk", "hamming")
 TRIPLES = [((), (), ()), ((2,), (2,), (2,)), ((), (2,), (2,)), ((2,), (), ()), ((), (2,), ()), ((2,), (1,), (2,)), ((2, 1), (1, 3), (2, 3)),
            ((), (1, 3), (2, 1)), ((3,), (2, 3), (3,)), ((2,), (2,), ())]
 D = 3
@@ -53,6 +54,10 @@ def make_kernel(name, kb, ad):
         return K.LinearKernel(ard_num_dims=nd, **kw)
     if name == "kiss":  # a kernel that holds NON-batched buffers (its grid) next to batched parameters
         return K.GridInterpolationKernel(K.RBFKernel(batch_shape=bs), grid_size=12, grid_bounds=[(-6.0, 6.0)] * nd, **({"active_dims": ad} if ad is not None else {}))
+    if name == "indexk":   # discrete inputs: task indices (n x 1 integer tensor)
+        return K.IndexKernel(num_tasks=3, rank=2, batch_shape=bs)
+    if name == "hamming":  # discrete inputs: one-hot encoded sequences (length 2 over a vocabulary of 3)
+        return K.HammingIMQKernel(vocab_size=3, batch_shape=bs)
     if name == "multitask":
         return K.MultitaskKernel(K.RBFKernel(**kw), num_tasks=2, rank=1, batch_shape=bs)
     if name == "rbfgrad":
@@ -73,8 +78,15 @@ def build(cell, seed):
     n1, n2 = (2, 3) if cell.get("orient") == "wide" else (3, 2)
     x1 = util.randn(g, *cell["x1b"], n1, D)
     x2 = util.randn(g, *cell["x2b"], n2, D)
+    if cell["kernel"] in DISCRETE:
+        def disc(*shape):
+            cat = (util.rand(g, *shape) * 3).long().clamp(0, 2)
+            if cell["kernel"] == "indexk":
+                return cat[..., :1]
+            return torch.nn.functional.one_hot(cat[..., :2], 3).reshape(*shape[:-1], 6).to(F64)
+        x1, x2 = disc(*cell["x1b"], n1, D), disc(*cell["x2b"], n2, D)
     if cell.get("orient") == "square":
-        x1 = util.randn(g, *cell["x1b"], 4, D)
+        x1 = util.randn(g, *cell["x1b"], 4, D) if cell["kernel"] not in DISCRETE else disc(*cell["x1b"], 4, D)
         x2 = x1  # the SAME tensor on both sides (the joint train/test matrix of a GP is K(X, X) indexed into blocks)
     return k, x1, x2
 
@@ -84,7 +96,7 @@ def cells(tier, seed):
     for kern, (kb, x1b, x2b), ad in itertools.product(BASIS, TRIPLES, [None, [0], [0, 2], [2, 0, 1]]):
         if ad == [2, 0, 1] and (kern not in ("matern_ard", "linear_ard", "rbfgrad_ard", "scale_rbf") or (tier == "quick" and (kb or x1b or x2b))):
             continue  # a permutation of all columns: only kernels with per-column parameters can tell (scale_rbf: inherited active_dims)
-        if kern in ("sum_ad", "kiss") and ad is not None:
+        if kern in ("sum_ad", "kiss") + DISCRETE and ad is not None:
             continue
         try:
             B = torch.broadcast_shapes(kb, x1b, x2b)
@@ -190,7 +202,7 @@ def relations(cell, k, x1, x2, dense, fails, feats, seed):
                 ops += 1
         with fails.guard("lazy-diagonal-cross"):
             # the diagonal of a lazily evaluated CROSS-covariance between two different point sets of equal size
-            x1c = x1 + 0.37
+            x1c = x1 + 0.37 if kern not in DISCRETE else x1.flip(-2)
             with S.lazily_evaluate_kernels(False):
                 cross = k(x1, x1c).to_dense()
             try:
